@@ -1009,7 +1009,12 @@ func init() {
 		rtSlash := e2sched{E2: e2p{Clients: 2, Type: "counter", Keys: []string{"a/b"}, Prefix: "joined", SyncType: "realtime", Tolerant: true},
 			Conc:  []pact{{Op: "inc", R: 0, P: 1, T: "a/b|"}, {Op: "inc", R: 1, P: 1, T: "a/b|"}},
 			AtEnd: []string{"announced", "quiescent", "log", "converge", "reference"}, NoClose: true}
+		// the application calls Sync() on a realtime client while it issues an operation from another goroutine
+		rtSync := e2sched{E2: e2p{Clients: 2, Type: "counter", Prefix: "joined", SyncType: "realtime", Tolerant: true},
+			Conc:  []pact{{Op: "sync", R: 0}, {Op: "inc", R: 0, P: 1, T: "k1|"}},
+			AtEnd: []string{"announced", "quiescent", "log", "converge", "reference"}, NoClose: true}
 		if tier == "quick" {
+			p.Runs = append(p.Runs, schedRun("realtime-sync-call-next-to-an-operation-b2", 2, rtSync, 0))
 			p.Runs = append(p.Runs, schedRun("realtime-two-datatypes-one-client-b1", 1, rt2k, 0), schedRun("realtime-key-with-slash-b1", 1, rtSlash, 0))
 			p.Runs = append(p.Runs, schedRun("realtime-counter-2ops-listener-b2", 2, rt2("counter"), 0))
 			p.Runs = append(p.Runs, schedRun("realtime-counter-2ops-eager-spawn-b2", 2, rt2e("counter"), 0))
